@@ -1562,10 +1562,10 @@ def compare_shadow_history(ctx, symbol, history, bp=None, spec=None):
         if norm_value(got) != norm_value(exp):
             ctx.violation('c15:%s:value' % what, case, '%s delivered %r, expected %r' % (text, got, exp), norm_value(exp), norm_value(got))
             return 'bad'
-        if st[0] == 'call' or st[0] == 'sandwich':
+        if st[0] == 'sandwich' or (called and st[0] != 'call'):
+            ctx.count('shadow_reads_after_a_call')      # sw_<kind>() reads the symbol behind its own invocation
+        if st[0] in ('call', 'sandwich'):
             called = True
-        elif called:
-            ctx.count('shadow_reads_after_a_call')
         ctx.distinct('outcomes', ('shadow', symbol[0], repr(st), repr(norm_value(exp))))
     exp_pop = [ref.insts[i].values['W'] for i in ref.order['K']]
     got_pop = [i.W for i in dom.select_many('K')]
